@@ -116,7 +116,7 @@ let server_main () =
         toks := Array.of_list (Stdlib.List.filter (fun s -> s <> "") (String.split_on_char ' ' line));
         pos := 0;
         let id = next () in
-        let _dialect = next () in
+        let dialect = next () in
         let bound = next_int () in
         let schs = parse_schs () in
         let scen = match next () with
@@ -135,8 +135,11 @@ let server_main () =
         let positions = times nf (fun () -> nat_of_int (next_int ())) in
         let total = 400 in
         let fs = fault_stream positions (nat_of_int total) in
-        let srv = { sv_schemas = schs; sv_cur = opt bound } in
-        let r = run_scenario scen srv fs in
+        let r =
+          if dialect = "p" then
+            (* PostgreSQL: Driver.schema = the bound schema; CURRENT_SCHEMA() = it, or "public" (id 0) *)
+            run_scenario_pg (opt bound) scen { sv_schemas = schs; sv_cur = (if bound < 0 then Some N0 else opt bound) } fs
+          else run_scenario scen { sv_schemas = schs; sv_cur = opt bound } fs in
         let is_sess = (match scen with ScSess _ -> true | _ -> false) in
         let os = match r.r_out with
           | SOk -> "ok" | SRefused -> "refused" | SErr -> "err"
